@@ -659,6 +659,11 @@ func (vfs *MemFS) Remove(name string) error {
 		return &fs.PathError{Op: op, Path: name, Err: err}
 	}
 
+	if c, ok := child.(*dirNode); ok && c == parent {
+		// The root directory is its own parent and can't be removed.
+		return &fs.PathError{Op: op, Path: name, Err: vfs.err.PermDenied}
+	}
+
 	parent.mu.Lock()
 	defer parent.mu.Unlock()
 
@@ -705,6 +710,20 @@ func (vfs *MemFS) RemoveAll(path string) error {
 	}
 
 	if err != vfs.err.FileExists {
+		return &fs.PathError{Op: op, Path: path, Err: err}
+	}
+
+	if c, ok := child.(*dirNode); ok && c == parent {
+		// The root directory is its own parent : its content is removed but it can't be removed itself.
+		err = vfs.removeAll(c)
+		if err == nil {
+			c.mu.Lock()
+			c.delete()
+			c.mu.Unlock()
+
+			err = vfs.err.PermDenied
+		}
+
 		return &fs.PathError{Op: op, Path: path, Err: err}
 	}
 
